@@ -245,11 +245,14 @@ theorem C10_histories (ext : Ext) (fields : List Field) (r0 : B) (h0 : newRoot f
   exact C01.C01_build_decode' ext fields _ _ hschema hcov hrows hnar' hm
 
 /-- **every build returns well-formed arrays of its batch's length** (C03 along histories): the arrays of build `k` are
-well-formed Arrow arrays of the declared fields (`Spec.WF`), one per field, each of exactly `(batch k).length` rows.
-Hypotheses: those of `C01.C03_wf'` — `hsafe` is `Safe r0 ∨ coveredF` (decidable on the schema; excluded: a dictionary with
+well-formed Arrow arrays of the declared fields (the tightened `Spec.WF`: structurally valid AND of exactly the field's data
+type), one per field, each of exactly `(batch k).length` rows.
+Hypotheses: those of `C01.C03_wf'` — `hplain`: no metadata on a Map's entries field (known finding
+C03-map-entries-metadata); `hsafe` is `Safe r0 ∨ coveredF` (decidable on the schema; excluded: a dictionary with
 NON-nullable keys and a value type other than Utf8 / LargeUtf8 below a nullable struct / fixed-size list). -/
 theorem C10_builds_wf (ext : Ext) (fields : List Field) (r0 : B) (h0 : newRoot fields = .ok r0)
     (hschema : ∀ f ∈ fields, Lemmas.C03.SchemaOKF f)
+    (hplain : ∀ f ∈ fields, Lemmas.C03.PlainF f)
     (hsafe : Safe r0 ∨ fields.all Build.coveredF = true) (hext : Lemmas.C03.ExtOK ext)
     (ops : List Op) (hrows : OpsOK Lemmas.C03.SValOK ops)
     (outs : List (B × List Arr)) (fin : B) (h : run ext r0 ops = .ok (outs, fin)) :
@@ -261,7 +264,7 @@ theorem C10_builds_wf (ext : Ext) (fields : List Field) (r0 : B) (h0 : newRoot f
   obtain ⟨_, hg⟩ := Props.C03.All2_get hall
   intro k h1 h2
   obtain ⟨_, hm⟩ := hg k h1 h2
-  exact Props.C01.C03_wf' ext fields _ _ hschema
+  exact Props.C01.C03_wf' ext fields _ _ hschema hplain
     (hsafe.imp (fun hs root0 hr => by rw [h0] at hr; cases hr; exact hs) id) hext
     (mem_batchesFrom Lemmas.C03.SValOK ops [] (by simp) hrows _ (List.getElem_mem h2)) hm
 
